@@ -1,2 +1,3 @@
 -- Root of the library: every property module (so that `lake build` checks everything).
 import SwimVerif.Props.C12
+import SwimVerif.Props.C17
